@@ -210,4 +210,249 @@ example : ((denoteDescr dEx true).rules.map fun r => (r.lhs, r.rhs, r.anode, r.c
      ("term", ["'('", "expr", "')'"], some "paren", 1, some []),
      ("term", [], none, 0, some [NIL_TRANSL])] := rfl
 
+/-! ## terminals declared both with and without a code -/
+
+/-- **success**: `set_sgrammar` accepts the declarations iff no name has two different
+explicit codes (code `-1`: no explicit code); otherwise the error is 7 -/
+theorem dedupTerms_ok_iff (l : List STerm) :
+    (∃ ts, dedupTerms l [] = .ok ts) ↔
+      ∀ p ∈ l, ∀ q ∈ l, p.name = q.name → p.code ≠ -1 → q.code ≠ -1 → p.code = q.code :=
+  ⟨fun ⟨ts, h⟩ => ((dedupTerms_spec l).2 ts h).1, (dedupTerms_spec l).1⟩
+
+theorem dedupTerms_error_iff (l : List STerm) :
+    dedupTerms l [] = .error 7 ↔
+      ¬ ∀ p ∈ l, ∀ q ∈ l, p.name = q.name → p.code ≠ -1 → q.code ≠ -1 → p.code = q.code := by
+  rw [← dedupTerms_ok_iff]
+  cases h : dedupTerms l [] with
+  | error e =>
+    have := dedupTerms_error _ _ _ h
+    subst this
+    simp
+  | ok ts => simp
+
+/-- **names**: one entry per name, in order of first occurrence -/
+theorem dedupTerms_names {l ts : List STerm} (h : dedupTerms l [] = .ok ts) :
+    ts.map (·.name) = distinctNames (l.map (·.name)) ∧ (ts.map (·.name)).Nodup ∧
+      ∀ n, n ∈ ts.map (·.name) ↔ n ∈ l.map (·.name) := by
+  have := ((dedupTerms_spec l).2 ts h).2.1
+  rw [this]
+  exact ⟨rfl, nodup_distinctNames _, fun n => mem_distinctNames⟩
+
+/-- **codes**: the entry of a name carries THE explicit code of the name if some occurrence
+(before or after the first one) has one, and no code otherwise -/
+theorem dedupTerms_code {l ts : List STerm} (h : dedupTerms l [] = .ok ts) {t : STerm}
+    (ht : t ∈ ts) :
+    ((∃ p ∈ l, p.name = t.name ∧ p.code ≠ -1) →
+      ∃ p ∈ l, p.name = t.name ∧ p.code = t.code ∧ t.code ≠ -1) ∧
+    ((∀ p ∈ l, p.name = t.name → p.code = -1) → t.code = -1) := by
+  obtain ⟨h1, h2⟩ := ((dedupTerms_spec l).2 ts h).2.2 t ht
+  constructor
+  · rintro ⟨p, hp, hpn, hpc⟩
+    have := h2 p.code ⟨p, hp, hpn, rfl, hpc⟩
+    exact ⟨p, hp, hpn, this.symm, this ▸ hpc⟩
+  · intro hall
+    apply Classical.byContradiction
+    intro hne
+    obtain ⟨p, hp, hpn, hpc, _⟩ := h1 hne
+    exact hne (hpc ▸ hall p hp hpn)
+
+/-- every explicit code of an occurrence is the code of the entry of its name -/
+theorem dedupTerms_code_of_occ {l ts : List STerm} (h : dedupTerms l [] = .ok ts) {t p : STerm}
+    (ht : t ∈ ts) (hp : p ∈ l) (hn : p.name = t.name) (hc : p.code ≠ -1) : t.code = p.code :=
+  (((dedupTerms_spec l).2 ts h).2.2 t ht).2 p.code ⟨p, hp, hn, rfl, hc⟩
+
+/-- **position independence**: success, the set of names and the code of every name depend
+only on the set of occurrences, not on their order or multiplicity -/
+theorem dedupTerms_mem_invariant_codes {l l' : List STerm} (hmem : ∀ p, p ∈ l ↔ p ∈ l') :
+    ((∃ ts, dedupTerms l [] = .ok ts) ↔ (∃ ts', dedupTerms l' [] = .ok ts')) ∧
+    ∀ ts ts', dedupTerms l [] = .ok ts → dedupTerms l' [] = .ok ts' →
+      (∀ n, n ∈ ts.map (·.name) ↔ n ∈ ts'.map (·.name)) ∧
+      ∀ t ∈ ts, ∀ t' ∈ ts', t.name = t'.name → t.code = t'.code := by
+  have hE : ∀ n c, ExplCode l n c ↔ ExplCode l' n c := by
+    intro n c
+    constructor
+    · rintro ⟨p, hp, h⟩; exact ⟨p, (hmem p).mp hp, h⟩
+    · rintro ⟨p, hp, h⟩; exact ⟨p, (hmem p).mpr hp, h⟩
+  constructor
+  · rw [dedupTerms_ok_iff, dedupTerms_ok_iff]
+    constructor
+    · intro h p hp q hq; exact h p ((hmem p).mpr hp) q ((hmem q).mpr hq)
+    · intro h p hp q hq; exact h p ((hmem p).mp hp) q ((hmem q).mp hq)
+  · intro ts ts' h h'
+    constructor
+    · intro n
+      rw [(dedupTerms_names h).2.2, (dedupTerms_names h').2.2]
+      simp only [List.mem_map]
+      constructor
+      · rintro ⟨p, hp, hn⟩; exact ⟨p, (hmem p).mp hp, hn⟩
+      · rintro ⟨p, hp, hn⟩; exact ⟨p, (hmem p).mpr hp, hn⟩
+    · intro t ht t' ht' hn
+      obtain ⟨h1, h2⟩ := ((dedupTerms_spec l).2 ts h).2.2 t ht
+      obtain ⟨h1', h2'⟩ := ((dedupTerms_spec l').2 ts' h').2.2 t' ht'
+      by_cases hc : t.code = -1
+      · by_cases hc' : t'.code = -1
+        · rw [hc, hc']
+        · exact h2 _ ((hE _ _).mpr (hn ▸ h1' hc'))
+      · exact (h2' _ ((hE _ _).mp (hn ▸ h1 hc))).symm
+
+theorem dedupTerms_perm_invariant_codes {l l' : List STerm} (hperm : l.Perm l') :
+    ((∃ ts, dedupTerms l [] = .ok ts) ↔ (∃ ts', dedupTerms l' [] = .ok ts')) ∧
+    ∀ ts ts', dedupTerms l [] = .ok ts → dedupTerms l' [] = .ok ts' →
+      (∀ n, n ∈ ts.map (·.name) ↔ n ∈ ts'.map (·.name)) ∧
+      ∀ t ∈ ts, ∀ t' ∈ ts', t.name = t'.name → t.code = t'.code :=
+  dedupTerms_mem_invariant_codes (fun _ => hperm.mem_iff)
+
+example : dedupTerms [⟨"b", 5⟩, ⟨"b", -1⟩] [] = .ok [⟨"b", 5⟩] := rfl
+example : dedupTerms [⟨"b", -1⟩, ⟨"b", 5⟩] [] = .ok [⟨"b", 5⟩] := rfl
+example : dedupTerms [⟨"a", 5⟩, ⟨"a", -1⟩, ⟨"a", 6⟩] [] = .error 7 := rfl
+example : dedupTerms [⟨"a", -1⟩, ⟨"a", -1⟩, ⟨"b", 5⟩, ⟨"b", -1⟩] [] = .ok [⟨"a", -1⟩, ⟨"b", 5⟩] := rfl
+
+/-! ## round trip for descriptions that declare a terminal with and without its code -/
+
+theorem WfASTMixed.parts {d : DescrAST} (h : WfASTMixed d) :
+    d ≠ [] ∧ (∀ it ∈ d, wfItem it = true) ∧
+      explicitConsistentOccs (d.flatMap DItem.occs) = true := by
+  unfold WfASTMixed wfASTMixed at h
+  simp only [Bool.and_eq_true, Bool.not_eq_true', List.all_eq_true] at h
+  obtain ⟨⟨h1, h2⟩, h3⟩ := h
+  refine ⟨?_, h2, h3⟩
+  intro hd
+  subst hd
+  cases h1
+
+/-- the old well-formedness is a special case -/
+theorem WfAST.mixed {d : DescrAST} (h : WfAST d) : WfASTMixed d := by
+  obtain ⟨h1, h2, h3⟩ := h.parts
+  unfold WfASTMixed wfASTMixed
+  simp only [Bool.and_eq_true, Bool.not_eq_true', List.all_eq_true]
+  refine ⟨⟨?_, h2⟩, consistentOccs_explicit h3⟩
+  cases d with
+  | nil => exact absurd rfl h1
+  | cons _ _ => rfl
+
+/-- ... with the same denotation -/
+theorem denoteDescrMixed_eq {d : DescrAST} (h : WfAST d) (strict : Bool) :
+    denoteDescrMixed d strict = denoteDescr d strict := by
+  unfold denoteDescrMixed denoteDescr
+  rw [termTableMixed_consistent h.parts.2.2]
+
+/-- **meaning of the general table**: one entry per name in order of first occurrence; the
+code of a name is the explicit code of any of its occurrences -/
+theorem resolvedOccs_spec {O : List (String × Option Nat)}
+    (h : explicitConsistentOccs O = true) :
+    (resolvedOccs O).map (·.1) = distinctNames (O.map (·.1)) ∧
+    ∀ e ∈ resolvedOccs O,
+      (∀ q ∈ O, q.1 = e.1 → ∀ k, q.2 = some k → e.2 = some k) ∧
+      ((∀ q ∈ O, q.1 = e.1 → q.2 = none) → e.2 = none) := by
+  constructor
+  · have := firstOccs_names O []
+    simp only [List.contains_nil, Bool.not_false] at this
+    rw [List.filter_eq_self.mpr (fun _ _ => rfl)] at this
+    rw [← this, resolvedOccs, List.map_map]
+    rfl
+  · intro e he
+    obtain ⟨p, _, rfl⟩ := List.mem_map.mp he
+    constructor
+    · intro q hq hn k hk
+      have := explicitCode_of_occ h hq hk
+      rw [hn] at this
+      exact this
+    · intro hall
+      cases hc : explicitCode O p.1 with
+      | none => rfl
+      | some k =>
+        obtain ⟨q, hq, hqn, hqk⟩ := explicitCode_some hc
+        have := hall q hq hqn
+        rw [hqk] at this; cases this
+
+theorem terminals_of_description_mixed {d : DescrAST} (hd : WfASTMixed d) :
+    ∃ ts, dedupTerms (accOf d).sterms [] = .ok ts ∧
+      assignCodes ts ts 256 = termTableMixed (d.flatMap DItem.occs) := by
+  obtain ⟨h1, h2⟩ := dedup_assign_mixed hd.parts.2.2
+  refine ⟨_, ?_, h2⟩
+  show dedupTerms (d.flatMap DItem.sterms) [] = _
+  rw [sterms_eq_occs hd.parts.2.1]
+  exact h1
+
+theorem lex_parse_render {d : DescrAST} {ℓ : Layout} (hne : d ≠ [])
+    (hit : ∀ it ∈ d, wfItem it = true) (hℓ : GoodLayout ℓ) :
+    ∃ toks, lexDescr ((render d ℓ).length + 2) (render d ℓ) [] = some toks ∧
+      parseFile (toks.length + 1) true toks {} = some (accOf d) := by
+  refine ⟨tokensOf d ℓ ++ [DTok.eof], lex_tokens hℓ (itemsToks_ok ℓ.semi hit 0) (by
+    show (render d ℓ).length < _
+    omega), ?_⟩
+  have halts : ∀ lhs alts, DItem.rule lhs alts ∈ d → alts ≠ [] := by
+    intro lhs alts hm hnil
+    have := hit _ hm
+    subst hnil
+    simp [wfItem] at this
+  have := parseFile_items ℓ.semi d 0 ((tokensOf d ℓ ++ [DTok.eof]).length + 1) true {} (by
+    have := length_le_itemsToks ℓ.semi d 0
+    simp only [tokensOf, List.length_append, List.length_cons, List.length_nil]
+    omega) (fun _ => hne) halts
+  rw [tokensOf] at this ⊢
+  rw [this]
+  simp [accItems, accOf]
+
+/-- **round trip, general form**: every text of a description in the documented syntax whose
+explicit codes are consistent is read as the denoted grammar; a terminal declared somewhere
+with a code has this code, wherever its first occurrence is -/
+theorem render_parse_roundtrip_mixed {d : DescrAST} {ℓ : Layout} (hd : WfASTMixed d)
+    (hℓ : GoodLayout ℓ) (strict : Bool) :
+    descrToRaw (render d ℓ) strict = .ok (denoteDescrMixed d strict) := by
+  obtain ⟨toks, h1, h2⟩ := lex_parse_render hd.parts.1 hd.parts.2.1 hℓ
+  unfold descrToRaw
+  rw [h1]
+  simp only []
+  rw [h2]
+  simp only []
+  obtain ⟨ts, h3, h4⟩ := terminals_of_description_mixed hd
+  rw [h3]
+  simp only [h4]
+  rfl
+
+theorem parseDescr_render_mixed {d : DescrAST} {ℓ : Layout} (hd : WfASTMixed d)
+    (hℓ : GoodLayout ℓ) (strict : Bool) :
+    parseDescr (render d ℓ) strict = readGrammar (denoteDescrMixed d strict) := by
+  unfold parseDescr
+  rw [render_parse_roundtrip_mixed hd hℓ]
+
+/-- ... and the only other outcome for a description in the documented syntax: two different
+explicit codes of one name are error 7 -/
+theorem render_parse_conflict {d : DescrAST} {ℓ : Layout} (hne : d ≠ [])
+    (hit : ∀ it ∈ d, wfItem it = true)
+    (hbad : explicitConsistentOccs (d.flatMap DItem.occs) = false)
+    (hℓ : GoodLayout ℓ) (strict : Bool) :
+    descrToRaw (render d ℓ) strict = .error 7 := by
+  obtain ⟨toks, h1, h2⟩ := lex_parse_render hne hit hℓ
+  unfold descrToRaw
+  rw [h1]
+  simp only []
+  rw [h2]
+  simp only []
+  have : dedupTerms (accOf d).sterms [] = .error 7 := by
+    show dedupTerms (d.flatMap DItem.sterms) [] = _
+    rw [sterms_eq_occs hit, dedupTerms_error_iff]
+    intro hc
+    have := explicitConsistent_declSTerm.mp hc
+    rw [hbad] at this
+    cases this
+  rw [this]
+
+/-- `NUM` is declared without code first and with its code later; `ID` the other way round -/
+def dMixed : DescrAST :=
+  [.terms [("NUM", none), ("ID", some 300), ("PLUS", none)],
+   .rule "e" [⟨[.ident "e", .ident "PLUS", .ident "NUM"], .none⟩, ⟨[.ident "ID"], .none⟩],
+   .terms [("ID", none), ("NUM", some 256)]]
+
+theorem dMixed_wf : WfASTMixed dMixed := by decide
+example : ¬ WfAST dMixed := by decide
+example : (denoteDescrMixed dMixed true).terms = [("NUM", 256), ("ID", 300), ("PLUS", 257)] := by
+  decide
+example : descrToRaw (render dMixed lEx) true = .ok (denoteDescrMixed dMixed true) :=
+  render_parse_roundtrip_mixed dMixed_wf lEx_good true
+example : (match descrToRaw (identBytes "TERM a b = 5 ; s : a b ; TERM a = 7 b ;") false with
+      | .ok r => r.terms | .error _ => []) = [("a", 7), ("b", 5)] := rfl
+example : descrToRaw (identBytes "TERM a = 5 a a = 6 ; s : a ;") false = .error 7 := rfl
+
 end Yaep
